@@ -6,13 +6,13 @@ from props import dwtfam
 
 ID = 'C17'
 PROPS_MODULE = 'Props.C17'
-THEOREMS = ['C17_inverse_is_transpose', 'C17_inner_from_pr', 'C17_haar']
+THEOREMS = ['C17_inverse_is_transpose', 'C17_inner_from_pr', 'C17_orthogonal', 'C17_inverse_reconstructs', 'C17_PRcond_lazy', 'C17_haar']
 VO = ['theories/Props/C17.vo', 'theories/Props/C01.vo', 'theories/Props/C10.vo', 'theories/Run/RunDwt.vo']
 RULE = ('correspondence A: periodization branches of afb1d/sfb1d (full operator matrices, every even and odd N around L), functions and level loops; '
         'oracle: operator A extracted from DWT1DForward/DWTForward by basis inputs for every orthogonal family, J, and sizes with every level even and '
         '>= L: A^T A = I, A A^T = I, S = A^T, autograd Jacobian^T = S. distinct by (wavelet, J, size, kind).')
-TRUSTED = TRUSTED_COMMON + ['orthonormality of the PyWavelets filter banks is measured by the oracle (A^T A), not discharged in Coq']
-ASSUMES = ['theorems: circular analysis/synthesis with one filter pair are transposes for all even N >= 2, L (C17_inverse_is_transpose); inner products are preserved whenever that synthesis reconstructs (C17_inner_from_pr); the model computes these closed forms under the guard (C01_level_row_per, C10_level_per_row)']
+TRUSTED = TRUSTED_COMMON + ['the kernel condition PRcond on the registered pair is the hypothesis of C17_orthogonal; for the PyWavelets banks its residual is bounded by C02_pywt_kernels; orthonormality in floating point is measured by the oracle (A^T A)']
+ASSUMES = ['theorems: circular analysis/synthesis with one filter pair are transposes for all even N >= 2, L (C17_inverse_is_transpose); inner products are preserved under the filter-only kernel condition for every even length (C17_orthogonal, via circular PR), and the transpose is the inverse (C17_inverse_reconstructs); the model computes these closed forms under the guard (C01_level_row_per, C10_level_per_row)']
 
 
 def corr_jobs(tier, rng):
